@@ -502,6 +502,20 @@ def check_votes(results, cell_vectors, leaf_mean, ref_genes, reduced_model,
                     out.append(_f('C02', 'winner-not-plurality',
                                   f'{where}: {a!r} cannot have the most '
                                   f'votes: lb={vm["lb"]} ub={vm["ub"]}'))
+                # whichever admissible votes the winner got, its average
+                # correlation is a mean of per-iteration best correlations
+                # of iterations it may have won
+                cand = [it['best'] for it in vm['iters']
+                        if a in it['children']]
+                c = rec.get('avg_correlation')
+                if cand and ok and votes > 0 and (
+                        c is None or c < min(cand) - 1e-7
+                        or c > max(cand) + 1e-7):
+                    out.append(_f('C02', 'avg-correlation',
+                                  f'{where}: avg_correlation {c} outside '
+                                  f'[{min(cand)}, {max(cand)}], the best '
+                                  f'correlations of the iterations {a!r} '
+                                  f'may have won'))
                 for x, xp in listed.items():
                     okx, vx = _is_int_multiple(xp, iterations)
                     if x in vm['lb'] and not (
